@@ -706,6 +706,27 @@ func main() {
 	}
 	w("].\n")
 
+	// ---- order of the accesses of an outbound acknowledgement and of the writer's pop
+	w("\nDefinition ack_shape : list (string * list string) := [\n")
+	aos := []co{
+		{"connection/ack.go", "release", []string{".messages.LoadAndDelete", ".messages.Load", ".messages.Delete", ".messages.Store", ".onRelease"}},
+		{"connection/writer.go", "releaseID", []string{".flow.release", ".flow.acquire", ".flow.reAcquire"}},
+		{"connection/writer.go", "qos12PopPacket", []string{".flow.quotaAvailable", ".flow.acquire", ".qos12Messages.Remove", ".pubOut.store", ".flow.release"}},
+	}
+	for i, c := range aos {
+		ts := callOrder(parse(filepath.Join(*repo, c.file)), c.fn, c.want)
+		q := make([]string, len(ts))
+		for j, t := range ts {
+			q[j] = "\"" + t + "\""
+		}
+		sep := ";"
+		if i == len(aos)-1 {
+			sep = ""
+		}
+		w("  (\"%s\", [%s])%s\n", c.fn, strings.Join(q, "; "), sep)
+	}
+	w("].\n")
+
 	if *out == "" {
 		fmt.Print(sb.String())
 		return
